@@ -1,14 +1,14 @@
 SPECIFICATION Spec
 CONSTANTS
-  Catalogue <- CatH1
+  Catalogue <- CatNone
   DiskC = "A"
   DiskR = "A"
-  Feat = {"health", "msg", "stop"}
-  Feeds <- FeedsOne
-  MaxCum = 0
+  Feat = {"usage", "stop"}
+  Feeds <- FeedsTwo
+  MaxCum = 2
   Steps = {1}
-  Outcomes = {}
-  ZeroReports = "keys"
+  Outcomes = {"ok", "fail", "pendok", "hold"}
+  ZeroReports = "never"
   RetryFailed = TRUE
   Faithful = TRUE
 INVARIANTS TypeOK AppliedIsInForce FailedIsRefused EffectiveInForce Conservation NoDoubleCount StopUnhealthy
